@@ -2,7 +2,7 @@
 import re
 
 from factlib import trace
-from common import enum_arm_regions, calls_in, closures_in, exclusive_regions, JOIN_RX
+from common import enum_arm_regions, calls_in, closures_in, exclusive_regions, JOIN_RX, find_aggs
 
 CONT = "async_graphql::resolver_utils::container"
 DYN = "async_graphql::dynamic::resolve"
@@ -97,3 +97,20 @@ def run(F, R):
     R.check(len(rec) >= 2 and not ext, "R04.4", "insert_value:recursive-merge-at-every-level", iv.where(), "%d recursive merges, no wholesale extend" % len(rec),
             "insert_value merges an object level with %s instead of recursing (%d recursive calls): nested selections under a repeated response key are lost"
             % (sorted({c.callee.split("::")[-1] for c in ext}), len(rec)))
+
+    R.rule("R04.5", "every response object is assembled by create_value_object (the one place where repeated response keys are merged): the container resolvers "
+                    "(resolve_container, resolve_container_serial, resolve_container_inner, dynamic resolve_container) obtain their Value from it — none builds "
+                    "the IndexMap itself (map.insert would let a later occurrence of a key overwrite the earlier one)")
+    n5 = 0
+    pats = [r"^async_graphql::resolver_utils::container::resolve_container(_serial|_inner)?$", r"^async_graphql::dynamic::resolve::resolve_container$"]
+    for pat in pats:
+        for top in F.find(pat, kind="fn"):
+            fam = F.with_nested(top)
+            n5 += 1
+            inserts = [c for x in fam for c in x.calls() if c.callee and re.search(r"indexmap::map::\{impl#\d+\}::(insert|insert_full|entry)$", c.callee)]
+            objs = [a for x in fam for a in find_aggs(x, r"async_graphql_value::ConstValue$") if a[1][3] == "Object"]
+            via = [c for x in fam for c in x.calls() if c.callee and re.search(r"container::(create_value_object|resolve_container_inner)$", c.callee)]
+            key = top.defp.replace("async_graphql::", "")
+            R.check(bool(via) and not inserts and not objs, "R04.5", "object-built-by-create_value_object:" + key, top.where(), "delegates to create_value_object",
+                    "%s builds the response object itself (%d map inserts, %d Value::Object constructions): repeated response keys are overwritten instead of merged on this path" % (top.name, len(inserts), len(objs)))
+    R.floor("R04.5", "container resolvers", n5, 3)
